@@ -16,28 +16,25 @@ Min2(a, b) == IF a < b THEN a ELSE b
 RECURSIVE SeqSum(_)
 SeqSum(s) == IF s = <<>> THEN 0 ELSE s[1] + SeqSum(Tail(s))
 
-Other(t, c) == IF c[1] = t THEN c[2] ELSE c[1]
-
-\* what goWrite may emit for connection c after its pending events (W)
+\* what goWrite may emit for connection c after its pending events (W):
+\* the receiver its acknowledgements (or a resend request), the sender the
+\* lowest eligible chunk and up to MaxBurst - 1 following ones
 ChoicesFor(t, c, W) ==
-  LET p == Other(t, c) IN
+  LET p == OtherEnd(t, c) IN
   IF t > p
   THEN {[peer |-> p, id |-> 0, ns |-> <<>>, lo |-> 1, hi |-> 0, nk |-> forceNk[c]]}
-  ELSE LET ks == IF W.pend[c] # {} \/ queue[c] = <<>> THEN {0}
-                 ELSE 1 .. Min2(MaxBurst, Len(queue[c]))
+  ELSE LET ks == IF W.pend[c] # {} THEN {0} ELSE 1 .. Min2(MaxBurst, Len(queue[c]))
        IN UNION { LET ns   == [j \in 1 .. k |-> queue[c][j].size]
                       n2   == oN[c] + SeqSum(ns)
                       elig == W.pend[c] \cup (oN[c] .. (n2 - 1))
-                  IN IF elig = {}
-                     THEN {[peer |-> p, id |-> 0, ns |-> ns, lo |-> 1, hi |-> 0, nk |-> FALSE]}
-                     ELSE UNION {{[peer |-> p, id |-> 0, ns |-> ns, lo |-> l, hi |-> h, nk |-> FALSE] :
-                                   h \in {x \in elig : x >= l /\ x < l + MaxBurst
-                                                       /\ (l .. x) \subseteq elig}} : l \in elig}
+                      l    == SetMin(elig)
+                  IN {[peer |-> p, id |-> 0, ns |-> ns, lo |-> l, hi |-> h, nk |-> FALSE] :
+                        h \in {x \in elig : x >= l /\ x < l + MaxBurst /\ (l .. x) \subseteq elig}}
                 : k \in ks }
 
 SendChoices(t) ==
   LET W == AfterEvents(t) IN
-  {NoSend} \cup UNION {ChoicesFor(t, c, W) : c \in W.want}
+  {NoSend} \cup UNION {ChoicesFor(t, c, W) : c \in {d \in ConnsOf(t) : WantsSend(t, d, W)}}
 
 WriteSome(t) == \E snd \in SendChoices(t) : Write(t, snd)
 ReadSome(t)  == \E i \in 0 .. (Len(net[t]) - 1) : Read(t, i)
